@@ -108,4 +108,14 @@ theorem bindFrom_adds (m : ModInfo) (names : List Alias) (σ : Bindings) :
       · simp only [hc, Bool.false_eq_true, if_false]
         exact ⟨[], by simp, by simp⟩
 
+theorem firstFile_some (files : List (String × ModInfo)) (ps : List String) (m : ModInfo)
+    (h : firstFile files ps = some m) : ∃ p, lookupFile files p = some m := by
+  induction ps with
+  | nil => simp [firstFile] at h
+  | cons p ps ih =>
+    unfold firstFile at h
+    cases hl : lookupFile files p with
+    | some m' => simp only [hl] at h; cases h; exact ⟨p, hl⟩
+    | none => simp only [hl] at h; exact ih h
+
 end PsModel.C17
